@@ -32,6 +32,8 @@ def run(name):
             env = dict(os.environ, VERIF_REPO_SRC=f"{wt}/src")
             p = subprocess.run([f"{V}/check", chk, "--no-evidence"], capture_output=True, text=True, env=env, cwd=V, timeout=3000)
             claims = sorted({ln.split("claim=")[1].split(" ")[0] for ln in p.stdout.splitlines() if ln.strip().startswith("claim=")})
+            if os.environ.get("SEED_VERBOSE"):
+                print("\n".join(ln[:400] for ln in p.stdout.splitlines() if not ln.startswith("  claim="))[-3000:], flush=True)
             res["checks"][chk] = dict(exit=p.returncode, violations=sum(1 for ln in p.stdout.splitlines() if ln.startswith("VIOLATION")), claims=claims[:8], detected=(p.returncode == 1))
     finally:
         subprocess.run(["git", "-C", "/repo", "worktree", "remove", "--force", wt], capture_output=True)
